@@ -121,7 +121,13 @@ impl Parser {
             Rule::value => Declaration::Value(Self::value(declaration)?),
             Rule::import => Declaration::Import(Self::import(declaration)?),
             Rule::type_alias => Declaration::TypeAlias(Self::type_alias(declaration).to_err_vec()?),
-            x => unreachable!("{x:?} is not supported"),
+            x => {
+                return Err(vec![super::new_err(
+                    declaration.as_span(),
+                    &input.user_data().get_source_file_name(),
+                    format!("`{}` is not a statement ({x:?} cannot be used here)", declaration.as_str().trim()),
+                )])
+            }
         };
 
         Ok(matched)
